@@ -1,0 +1,9 @@
+//go:build verif
+
+package message
+
+import "sync/atomic"
+
+// VerifSetPacketIDCounter sets the process-wide packet identifier counter (the
+// next automatically assigned identifier is v+1 modulo 65536).
+func VerifSetPacketIDCounter(v uint64) { atomic.StoreUint64(&gPacketID, v) }
